@@ -80,8 +80,11 @@ fn alphabet() -> Vec<Op> {
 fn connect_case(udp: bool, local: bool, compressed: bool, blocking: bool, ops_extra: &[Op], st: &mut Stats) {
     let id = format!("connect udp={udp} local={local} {} blocking={blocking} {}", mode_tag(compressed), ops_extra.iter().map(tok).collect::<Vec<_>>().join(" "));
     let rt = tokio::runtime::Builder::new_current_thread().enable_all().build().unwrap();
-    let mut b = Builder::new(); for o in ops_extra { b = apply(b, o); }
+    // the size mode is configured FIRST, then the other options (which may include a detour through relay() / another protocol), then the
+    // final tcp()/udp(): the mode configured must be the mode of the frame the peer receives, whatever came in between
+    let mut b = Builder::new();
     b = if compressed { b.compressed() } else { b.uncompressed() };
+    for o in ops_extra { if !matches!(o, Op::Mode(_)) { b = apply(b, o); } }
     let res: Option<(Vec<u8>, Vec<u8>)> = guard(|| {
         if udp {
             let server = UdpSocket::bind("127.0.0.1:0").ok()?; server.set_read_timeout(Some(Duration::from_millis(1500))).ok()?;
@@ -142,7 +145,8 @@ pub fn run(a: &Args) {
     }
     // what is actually sent: tcp/udp x local address x mode x blocking/tokio, with a few option sets
     for udp in [false, true] { for local in [false, true] { if !udp && local { continue; } for compressed in [true, false] { for blocking in [true, false] {
-        for extra in [vec![], vec![Op::Flag(0, true), Op::Reqi(9), Op::Iname(Some("verif".into())), Op::Admin(Some("pw".into())), Op::Interval(Some(250)), Op::Prefix(Some('!'))]] {
+        for extra in [vec![], vec![Op::Flag(0, true), Op::Reqi(9), Op::Iname(Some("verif".into())), Op::Admin(Some("pw".into())), Op::Interval(Some(250)), Op::Prefix(Some('!'))],
+                      vec![Op::Relay], vec![Op::Relay, Op::Reqi(3), Op::Udp(Some(40001)), Op::Tcp], vec![Op::Udp(None), Op::Relay, Op::Flag(4, true)]] {
             connect_case(udp, local, compressed, blocking, &extra, &mut st);
         }
     } } } }
